@@ -18,6 +18,7 @@
    case being "age > 100 ms".  The firing of a LockWithTimeout deadline is an input as well ([IDeadline], [Chk]). *)
 From Coq Require Import List Bool Arith.
 Import ListNotations.
+From GU Require Import C01.Facts.
 
 (* ---------- shared state: the one lock path ---------- *)
 Inductive path := PDir | PHb.      (* <dir>/lockfile-<id>  and  <dir>/lockfile-<id>/<id>.lock *)
@@ -39,14 +40,15 @@ Inductive op :=
 
 Inductive res :=
 | ROk | RExist | RNotExist | RNotEmpty | ROther
-| RIsDir (stale : bool) | RIsFile (stale : bool)   (* Stat: kind + staleness verdict of the ModTime *)
+| RIsDir (age : nat) | RIsFile (age : nat)         (* Stat: kind + age (ms) of the ModTime presented *)
 | RHandle (h : nat) | RFileHandle
 | RNames (n : nat) (eof : bool).
 
 Definition fsstate := option dirst.
 
-(* one backend operation by contender [c]; [ng] = next generation number; [stale] = verdict of this step *)
-Definition sem (c ng : nat) (stale : bool) (fs : fsstate) (o : op) : fsstate * res :=
+(* one backend operation by contender [c]; [ng] = next generation number; [age] = logical age (ms) of the time stamp a
+   Stat of this step presents (an input of the schedule) *)
+Definition sem (c ng : nat) (age : nat) (fs : fsstate) (o : op) : fsstate * res :=
   match o, fs with
   | OMkdir, None => (Some {| gen := ng; owner := c; hbf := false |}, ROk)
   | OMkdir, Some _ => (fs, RExist)
@@ -55,12 +57,12 @@ Definition sem (c ng : nat) (stale : bool) (fs : fsstate) (o : op) : fsstate * r
   | ORemove PHb, Some d => if hbf d then (Some {| gen := gen d; owner := owner d; hbf := false |}, ROk) else (fs, RNotExist)
   | ORemove PHb, None => (fs, RNotExist)
   | OStat PDir, None => (fs, RNotExist)
-  | OStat PDir, Some _ => (fs, RIsDir stale)
-  | OStat PHb, Some d => if hbf d then (fs, RIsFile stale) else (fs, RNotExist)
+  | OStat PDir, Some _ => (fs, RIsDir age)
+  | OStat PHb, Some d => if hbf d then (fs, RIsFile age) else (fs, RNotExist)
   | OStat PHb, None => (fs, RNotExist)
   | OLstat PDir, None => (fs, RNotExist)
-  | OLstat PDir, Some _ => (fs, RIsDir false)
-  | OLstat PHb, Some d => if hbf d then (fs, RIsFile false) else (fs, RNotExist)
+  | OLstat PDir, Some _ => (fs, RIsDir 0)
+  | OLstat PHb, Some d => if hbf d then (fs, RIsFile 0) else (fs, RNotExist)
   | OLstat PHb, None => (fs, RNotExist)
   | OOpen PDir, None => (fs, RNotExist)
   | OOpen PDir, Some d => (fs, RHandle (gen d))
@@ -183,13 +185,22 @@ Definition clean_dir : prog (result unit) :=
 (* fs.Rm(l.lockPath()) *)
 Definition rm_dir : prog (result unit) := rm_with clean_dir PDir.
 
-(* RemoteLockFile.IsStale + areHeartBeatFilesAllStale + StatTimes, lockfile.go:80-113 *)
+(* ================= from here on everything depends on the facts read from lockfile.go ================= *)
+Section WithFacts.
+Variable F : lockfacts.
+
+(* RemoteLockFile.IsStale + areHeartBeatFilesAllStale + StatTimes + isStale, lockfile.go:80-120; the results on the error
+   paths, the period each age is compared with and the comparison itself come from the facts *)
 Definition is_stale : prog bool :=
   l <- ls_dir ;;
   match l with
-  | Err => Ret false
-  | Ok 0 => Do (OStat PDir) (fun r => match r with RIsDir s | RIsFile s => Ret s | _ => Ret false end)
-  | Ok (S _) => Do (OStat PHb) (fun r => match r with RIsDir s | RIsFile s => Ret s | _ => Ret false end)
+  | Err => Ret (is_ls_error_stale F)
+  | Ok 0 => Do (OStat PDir) (fun r => match r with
+              | RIsDir a | RIsFile a => Ret (thr F (is_empty_period F) a)
+              | _ => Ret (is_empty_stat_error_stale F) end)
+  | Ok (S _) => Do (OStat PHb) (fun r => match r with
+              | RIsDir a | RIsFile a => Ret (thr F (is_files_period F) a)
+              | _ => Ret (is_file_stat_error_stale F) end)
   end.
 
 Inductive ares := AOk | ALocked | AStale | ACancelled | AOther.
@@ -202,10 +213,12 @@ Fixpoint unlock_attempts (n : nat) : prog ares :=
   | S m => r <- rm_dir ;;
            match r with
            | Err => unlock_attempts m
-           | Ok _ => e <- exists_ PDir ;; if e then unlock_attempts m else Ret AOk
+           | Ok _ => if ul_recheck_exists F
+                     then e <- exists_ PDir ;; if e then unlock_attempts m else Ret AOk
+                     else Ret AOk
            end
   end.
-Definition unlock : prog ares := unlock_attempts 10.
+Definition unlock : prog ares := unlock_attempts (ul_attempts F).
 
 (* TryLock, lockfile.go:130-165 (+ ReleaseIfStale :122-127).  [fuel] bounds the recursion TryLock -> TryLock
    of the override path.  [wt] = the call comes from LockWithTimeout: the context of the action is registered in
@@ -220,7 +233,10 @@ Fixpoint try_lock (fuel : nat) (ovr wt : bool) : prog ares :=
             match fuel with
             | 0 => Ret AOther
             | S f =>
-                s2 <- is_stale ;;                      (* ReleaseIfStale *)
+                (* ReleaseIfStale (which asks IsStale again) or, if the facts say so, Unlock at once *)
+                s2 <- (match tl_override_call F with
+                       | RelIfStale => if ris_rechecks_stale F then is_stale else Ret true
+                       | RelUnlock => Ret true end) ;;
                 if s2 then
                   if wt then Ret ACancelled
                   else (_ <- unlock ;; Chk (try_lock f ovr wt))
@@ -265,7 +281,7 @@ Definition upd (w : ghost) (o : op) (r : res) : ghost :=
   match o, r with
   | OMkdir, ROk => {| mk := true; win := false |}
   | OMkdir, _ => {| mk := mk w; win := false |}
-  | OStat _, RIsDir true | OStat _, RIsFile true => {| mk := mk w; win := true |}
+  | OStat _, RIsDir a | OStat _, RIsFile a => if canon a then {| mk := mk w; win := true |} else w
   | _, _ => w
   end.
 
@@ -323,7 +339,8 @@ Record obs := { o_op : opc; o_res : resc; o_ret : option ares }.
 (* ---------- items of a schedule ---------- *)
 Inductive item :=
 | ICall (c : nat) (a : api)                 (* contender c starts an API call *)
-| IStep (c : nat) (hb : option nat) (stale : bool)   (* one backend operation of c's API thread / k-th heartbeat writer *)
+| IStep (c : nat) (hb : option nat) (age : nat)      (* one backend operation of c's API thread / k-th heartbeat writer;
+                                                        age = logical age (ms) of the time stamp if it is a Stat *)
 | IKill (c : nat)                           (* contender c dies while holding (its heartbeat stops) *)
 | IDeadline (c : nat).                      (* the deadline of c's LockWithTimeout call fires (at any point of the call) *)
 
@@ -365,7 +382,8 @@ Definition exec (s : state) (it : item) : option (state * option obs) :=
               (* Unlock begins: l.cancelStore.Cancel() — the holder has begun to release *)
               Some ({| fs := fs s; ngen := ngen s; bad := bad s;
                        cs := set_nth (cs s) c {| ovr := ovr x; cur := Some (a, prog_of a (ovr x)); holds := false; alive := true;
-                                                 eng := None; hbs := cancel_all (hbs x); gh := {| mk := false; win := true |} |} |}, None)
+                                                 eng := None; hbs := (if ul_cancel_first F then cancel_all (hbs x) else hbs x);
+                                                 gh := {| mk := false; win := true |} |} |}, None)
           end
       | None => None
       end
@@ -393,12 +411,12 @@ Definition exec (s : state) (it : item) : option (state * option obs) :=
           end
       | None => None
       end
-  | IStep c None stale =>
+  | IStep c None age =>
       match nth_error (cs s) c with
       | Some x =>
           match cur x with
           | Some (a, Do o k) =>
-              let '(fs', r) := sem c (ngen s) stale (fs s) o in
+              let '(fs', r) := sem c (ngen s) age (fs s) o in
               let created := match o, r with OMkdir, ROk => true | _, _ => false end in
               let removed := match o, r with ORemove PDir, ROk => true | _, _ => false end in
               let bad' := bad s || (removed && live_owner (fs s) (cs s)) in
@@ -412,7 +430,7 @@ Definition exec (s : state) (it : item) : option (state * option obs) :=
           end
       | None => None
       end
-  | IStep c (Some k) stale =>
+  | IStep c (Some k) age =>
       match nth_error (cs s) c with
       | Some x =>
           if negb (alive x) then None else
@@ -421,13 +439,14 @@ Definition exec (s : state) (it : item) : option (state * option obs) :=
               match pc h with
               | HbDone => None
               | HbOpen =>
-                  let '(fs', r) := sem c (ngen s) stale (fs s) OOpenHb in
+                  let '(fs', r) := sem c (ngen s) age (fs s) OOpenHb in
                   Some ({| fs := fs'; ngen := ngen s; bad := bad s;
                            cs := set_nth (cs s) c {| ovr := ovr x; cur := cur x; holds := holds x; alive := alive x; eng := eng x;
-                                                     hbs := set_nth (hbs x) k {| pc := HbCht; cancelled := cancelled h |}; gh := gh x |} |},
+                                                     hbs := set_nth (hbs x) k {| pc := (match r with ROk => HbCht | _ => if hb_stops_on_write_error F then HbDone else HbCht end);
+                                                                                 cancelled := cancelled h |}; gh := gh x |} |},
                         Some {| o_op := COpenFile; o_res := resc_of r; o_ret := None |})
               | HbCht =>
-                  let '(fs', r) := sem c (ngen s) stale (fs s) (OChtimes PHb) in
+                  let '(fs', r) := sem c (ngen s) age (fs s) (OChtimes PHb) in
                   Some ({| fs := fs'; ngen := ngen s; bad := bad s;
                            cs := set_nth (cs s) c {| ovr := ovr x; cur := cur x; holds := holds x; alive := alive x; eng := eng x;
                                                      hbs := set_nth (hbs x) k {| pc := if cancelled h then HbDone else HbOpen; cancelled := cancelled h |};
@@ -510,7 +529,7 @@ Inductive entry :=
 | C_ (c a : nat)                         (* call: a = 0 TryLock, 1 Lock, 2 LockWithTimeout, 3 Unlock *)
 | K_ (c : nat)                           (* kill *)
 | D_ (c : nat)                           (* the deadline of c's LockWithTimeout fires *)
-| S_ (c hb st o r t : nat).              (* step: hb = 0 API thread, k+1 heartbeat writer k; st = staleness verdict;
+| S_ (c hb st o r t : nat).              (* step: hb = 0 API thread, k+1 heartbeat writer k; st = logical age in ms (capped);
                                             o, r, t = observed operation, result class, return kind (0 = no return) *)
 
 Definition api_of (n : nat) : api := match n with 0 => TryLock | 1 => Lock | 2 => LockWT | _ => Unlock end.
@@ -533,7 +552,7 @@ Definition item_of (e : entry) : item :=
   | C_ c a => ICall c (api_of a)
   | K_ c => IKill c
   | D_ c => IDeadline c
-  | S_ c hb st _ _ _ => IStep c (match hb with 0 => None | S k => Some k end) (match st with 0 => false | _ => true end)
+  | S_ c hb st _ _ _ => IStep c (match hb with 0 => None | S k => Some k end) st
   end.
 Definition obs_of (e : entry) : option obs :=
   match e with
@@ -552,7 +571,7 @@ Fixpoint respects_oracle (s : state) (its : list item) : bool :=
   match its with
   | [] => true
   | it :: r =>
-      (match it with IStep _ None true => negb (live_owner (fs s) (cs s)) | _ => true end) &&
+      (match it with IStep _ None a => implb (canon a) (negb (live_owner (fs s) (cs s))) | _ => true end) &&
       match exec s it with Some (s', _) => respects_oracle s' r | None => false end
   end.
 
@@ -579,8 +598,8 @@ Fixpoint others_closed (l : list cst) (c : nat) : bool :=
 
 Definition allowedb (judge : state -> bool) (s : state) (it : item) : bool :=
   match it with
-  | IStep c None stale =>
-      implb stale (judge s) &&
+  | IStep c None age =>
+      implb (canon age) (judge s) &&
       match nth_error (cs s) c with
       | Some x => implb (at_mkdir x && match fs s with None => true | Some _ => false end) (others_closed (cs s) c)
       | None => true
@@ -606,3 +625,5 @@ Definition judge_max (s : state) : bool := negb (live_owner (fs s) (cs s)).
 Definition check_case (k : case) : bool :=
   check_case0 k &&
   implb (c_atomic k) (match rrun judge_max (init (c_ovr k)) (c_items k) with Some s => negb (bad s) | None => false end).
+
+End WithFacts.
